@@ -6,6 +6,7 @@ import math
 import uuid as uuidlib
 from fractions import Fraction as Fr
 
+import numpy as np
 from hypothesis import strategies as st
 
 from vf.core import Sub
@@ -344,8 +345,7 @@ def check_import(spec, ctx):
             check_ann(ann, e, False)
         return
     if kind == "annotation_bbox":
-        if not elems:
-            return
+        # zero boxes: crowsetta then sets neither .bboxes nor .seq; the import must give a clip annotation without sound events
         annot = crowsetta.Annotation(annot_path="x.csv", notated_path=rec.path, bboxes=[crowsetta.BBox(onset=e["onset"], offset=e["offset"], low_freq=e["low"], high_freq=e["high"], label=e["label"]) for e in elems])
         ca = ctx.call(spec, "annotation_to_clip_annotation(bboxes)", sec.annotation_to_clip_annotation, annot, recording=rec, **kw)
         box = True
@@ -388,7 +388,7 @@ def export_case(draw):
         items.append({"geometry": g, "tags": [[draw(st.sampled_from(KEYS)), draw(st.sampled_from(["a", "b", "c"]))] for _ in range(draw(st.integers(0, 3)))]})
     return {
         # the export never looks at the time expansion: sample indices and the Nyquist cap follow Recording.samplerate whatever it is
-        "te": draw(st.sampled_from([1.0, 1.0, 10.0, 2.5, 0.5, 3.0, 20.0])),
+        "te": draw(st.sampled_from([1.0, 1.0, 10.0, 2.5, 0.5, 3.0, 20.0])), "index_np": draw(st.booleans()),
         "sr": sr, "items": items, "fmt": draw(st.sampled_from(["segment", "bbox", "sequence", "annotation_bbox", "annotation_seq"])),
         "cast": draw(st.sampled_from([None, True, False])), "ignore_errors": draw(st.sampled_from([None, True, False])),
         "raise_on_time": draw(st.sampled_from([None, True, False])), "value_only": draw(st.sampled_from([None, True])), "index": draw(st.sampled_from([None, 0, -1, 5, -7])),
@@ -415,7 +415,8 @@ def check_export(spec, ctx):
     if spec["value_only"] is not None:
         lab_kw["value_only"] = spec["value_only"]
     if spec["index"] is not None:
-        lab_kw["index"] = spec["index"]
+        # an index as it comes out of numpy code (np.argmax, an integer array) is the same index
+        lab_kw["index"] = np.int64(spec["index"]) if spec.get("index_np") else spec["index"]
     for k in ("select_by_key", "separator", "empty_label"):
         if spec.get(k) is not None:
             lab_kw[k] = spec[k]
